@@ -26,6 +26,12 @@ class Structural:
         return x.shape[0]
 
     # -------------------------------------------------------------------------------------- structure
+    @reg('numpy.append')
+    def np_append(self, arr, values, axis=None):
+        if axis is not None:
+            return self.np_concatenate([self.asarray(arr), self.asarray(values)], axis=axis)
+        return self.np_concatenate([self.np_ravel(self.asarray(arr)), self.np_ravel(self.asarray(values))], axis=0)
+
     @reg('numpy.concatenate')
     def np_concatenate(self, seq_, axis=0):
         parts = [self.asarray(p) if not is_arr(p) else p for p in seq_]
@@ -845,9 +851,25 @@ class Structural:
         elif is_arr(wn) and not (len(wn.shape) == 0 or wn.shape == (1,)):
             raise PyExc('ValueError', 'Must specify a single critical frequency Wn for lowpass or highpass filter')
         ncoef = (2 * order if band else order) + 1
-        b = self.opaque_array('butter_b_%s' % btype, [order, wn], (ncoef,), 'float', assumed='scipy.signal.butter uninterpreted')
-        a = self.opaque_array('butter_a_%s' % btype, [order, wn], (ncoef,), 'float', assumed='scipy.signal.butter uninterpreted')
-        return b, a
+        # coefficients: ONE uninterpreted function per filter type of (order, cut-off(s), index): equal requests give equal coefficients
+        # (congruence), so a design handed over from an earlier identical request is recognised as the design of this request
+        if band:
+            w0, w1 = T.to_real(self._gi(wn, 0)), T.to_real(self._gi(wn, 1))
+        else:
+            w0 = T.to_real(self.scalar_of(wn) if is_arr(wn) else N(wn))
+            w1 = Q(0)
+        kind = {'bandpass': 'band', 'lowpass': 'low', 'highpass': 'high'}.get(btype, btype)
+        c = ctx()
+        c.assumed.append('scipy.signal.butter uninterpreted')
+        c.cache.setdefault('opaque-calls', []).append(('butter_b_%s' % btype, [order, wn], (ncoef,)))
+        out = []
+        for which in ('b', 'a'):
+            F = butter_fn(which, kind)
+            arr = np.empty((ncoef,), dtype=object)
+            for k in range(ncoef):
+                arr[k] = N(F(z3.IntVal(order), T.to_z3(w0), T.to_z3(w1), z3.IntVal(k)))
+            out.append(BArr(arr, 'float'))
+        return out[0], out[1]
 
     @reg('scipy.signal.filtfilt')
     def sp_filtfilt(self, b, a, x, **kw):
@@ -876,6 +898,11 @@ class Structural:
     def sp_detrend(self, x, **kw):
         x = self.asarray(x)
         return self.opaque_array('detrend', [x], tuple(x.shape), 'float', assumed='scipy.signal.detrend uninterpreted')
+
+
+def butter_fn(which, kind):
+    """uninterpreted Butterworth design: coefficient k of the numerator ('b') / denominator ('a') for (order, w0, w1)"""
+    return z3.Function('butter_%s_%s' % (which, kind), T.I, T.R, T.R, T.I, T.R)
 
 
 def _rank(dt):
